@@ -343,6 +343,17 @@ func c03CheckMul(c c03MulCase) h.Result {
 	ep2.SetEdwardsPoint(p)
 	c03Expect(r, "ExpandedDoubleScalarMulBasepointVartime(reset)", New().ExpandedDoubleScalarMulBasepointVartime(s, ep2, s2), sPs2B)
 
+	// a by-value snapshot of an expanded point keeps computing with its own
+	// point after the original has been re-set, and the original with its new one
+	ep3 := curve.NewExpandedEdwardsPoint(p)
+	snap := *ep3
+	ep3.SetEdwardsPoint(curve.ED25519_BASEPOINT_POINT)
+	sBs2B := h.C03Expected([]h.C03Term{{P: c03SpecB, S: c.S}, {P: c03SpecB, S: c.S2}}, false)
+	c03Expect(r, "ExpandedEdwardsPoint(value-copy).Point", snap.Point(), pr)
+	c03Expect(r, "ExpandedDoubleScalarMulBasepointVartime(value-copy,original-reset)", New().ExpandedDoubleScalarMulBasepointVartime(s, &snap, s2), sPs2B)
+	c03Expect(r, "ExpandedMultiscalarMulVartime(value-copy,original-reset)", New().ExpandedMultiscalarMulVartime([]*scalar.Scalar{s}, []*curve.ExpandedEdwardsPoint{&snap}, nil, nil), sP)
+	c03Expect(r, "ExpandedDoubleScalarMulBasepointVartime(original-after-reset)", New().ExpandedDoubleScalarMulBasepointVartime(s, ep3, s2), sBs2B)
+
 	// one-term multiscalar forms
 	ss, pp := []*scalar.Scalar{s}, []*curve.EdwardsPoint{p}
 	c03Expect(r, "MultiscalarMul(n=1)", New().MultiscalarMul(ss, pp), sP)
